@@ -1,4 +1,4 @@
-HOOK_COMMITS = ["341cf12", "11958cd", "a42f779", "36abb38", "cf8069d", "bc0d863", "66898da", "35ac2b3"]
+HOOK_COMMITS = ["341cf12", "11958cd", "a42f779", "36abb38", "cf8069d", "bc0d863", "66898da", "35ac2b3", "6e02833", "98a7cdc", "e442d71"]
 NOTES = ("Verdicts come only from property monitors evaluated by TLC on events recorded from the real code; a "
          "conformance divergence between code and specification is reported in the evidence but is never a violation. "
          "Fix commits in /repo: 00358e6 (F7), c768102 (F1), 92c7e00 (F5), 905c7fb (F2), 18b399f (F4); known findings F6, F8; see known_findings.json.")
